@@ -247,9 +247,16 @@ async fn apply_remote_deletes(
             for rel in dels {
                 let _ = write!(list, "{}/{}\0", remote_root, rel.display());
             }
+            // `xargs` acts on whatever arrives - also on a list cut short in the middle of
+            // a path when the sender dies between two writes of a long list - so the list
+            // is staged on the remote side and used only if it arrived in full.
+            let remote_cmd = format!(
+                "t=$(mktemp) && cat > \"$t\" && [ \"$(wc -c < \"$t\")\" -eq {} ] && xargs -0 rm -f -- < \"$t\"; rm -f \"$t\"",
+                list.len()
+            );
             if let Ok(mut child) = tokio::process::Command::new("ssh")
                 .arg(host)
-                .arg("xargs -0 rm -f --")
+                .arg(remote_cmd)
                 .stdin(std::process::Stdio::piped())
                 .stdout(std::process::Stdio::null())
                 .stderr(std::process::Stdio::piped())
